@@ -1074,3 +1074,193 @@ func (x *c02ctx) r2x15() {
 		r.Pass("R02.15", "typecheck.binaryExpr/no-acceptance-before-the-operand-conversion", ic.pos(fi.Decl.Pos()), "no early acceptance before the operand conversions")
 	}
 }
+
+func init() {
+	ruleText["R02.17"] = "a comparison with nil tests the operand that is not nil, for == and != alike: every generator cfg installs under the test that one operand is the nil symbol is selected by which operand is nil - a generator factory called with an index that depends on that test, or a generator that tests it itself; none reads a fixed child"
+}
+
+// r2x17: found through the round-6 report on C01 (D11). x == nil / nil == x chose
+// isNilChild(0/1); != always installed isNotNil, which read child[0]: nil != p was always false.
+func (x *c02ctx) r2x17() {
+	ic, r := x.ic, x.r
+	info := ic.Info
+	cfgFn := ic.fn(r, "Interpreter.cfg")
+	if cfgFn == nil {
+		return
+	}
+	genFld := ic.field("node", "gen")
+	symFld := ic.field("node", "sym")
+	// the nil symbol: a local of cfg read from the universe scope under the nil identifier
+	isNilTest := func(e ast.Expr) bool {
+		found := false
+		ast.Inspect(e, func(q ast.Node) bool {
+			be, ok := q.(*ast.BinaryExpr)
+			if !ok || be.Op != token.EQL {
+				return true
+			}
+			for _, pair := range [][2]ast.Expr{{be.X, be.Y}, {be.Y, be.X}} {
+				if selField(info, pair[0]) == symFld {
+					if id := identOf(pair[1]); id != nil && strings.Contains(strings.ToLower(id.Name), "nil") {
+						found = true
+					}
+				}
+			}
+			return true
+		})
+		return found
+	}
+	n := 0
+	ast.Inspect(cfgFn.Decl.Body, func(q ast.Node) bool {
+		ifs, ok := q.(*ast.IfStmt)
+		if !ok || !isNilTest(ifs.Cond) {
+			return true
+		}
+		// installations of a generator inside the guarded block
+		ast.Inspect(ifs.Body, func(z ast.Node) bool {
+			as, ok := z.(*ast.AssignStmt)
+			if !ok || len(as.Lhs) != 1 || len(as.Rhs) != 1 || selField(info, as.Lhs[0]) != genFld {
+				return true
+			}
+			n++
+			what := types.ExprString(as.Rhs[0])
+			good := false
+			switch y := unparen(as.Rhs[0]).(type) {
+			case *ast.CallExpr:
+				// a factory: its argument is a constant chosen under a nil test of one operand, or a
+				// local assigned under such a test
+				for _, g := range pathGuards(ifs.Body, as) {
+					if isNilTest(g.cond) {
+						good = true
+					}
+				}
+				for _, a := range y.Args {
+					if id := identOf(a); id != nil {
+						obj := info.ObjectOf(id)
+						ast.Inspect(ifs.Body, func(w ast.Node) bool {
+							if a2, ok := w.(*ast.AssignStmt); ok {
+								for _, l := range a2.Lhs {
+									if lid := identOf(l); lid != nil && info.ObjectOf(lid) == obj {
+										for _, g := range pathGuards(ifs.Body, a2) {
+											if isNilTest(g.cond) {
+												good = true
+											}
+										}
+									}
+								}
+							}
+							return true
+						})
+					}
+				}
+			case *ast.Ident:
+				if f, ok := info.Uses[y].(*types.Func); ok {
+					if gi := ic.G.Funcs[f]; gi != nil && gi.Decl.Body != nil {
+						ast.Inspect(gi.Decl.Body, func(w ast.Node) bool {
+							if e, ok := w.(ast.Expr); ok && isNilTest(e) {
+								good = true
+							}
+							return true
+						})
+					}
+				}
+			}
+			r.Check(good, "R02.17", fmt.Sprintf("cfg/nil-comparison/generator#%d/selected-by-the-nil-operand", n), ic.pos(as.Pos()), "the generator depends on which operand is nil",
+				"cfg installs "+what+" for a comparison with nil whichever operand is nil, and that generator does not find out itself: it reads a fixed operand, so with nil on the other side it tests the nil literal - nil != p is always false (if nil != p { ... } never runs)")
+			return true
+		})
+		return false // the nested tests belong to this block
+	})
+	if n < 2 {
+		r.Errorf("R02.17: only %d generator installations found under a nil-operand test in cfg (== and != expected)", n)
+	}
+}
+
+func init() {
+	ruleText["R02.18"] = "in an expression switch each case value is compared as a value of the tag's type: the run-time closure of the case generator never converts nor reassigns the value of the tag (the local read from the generator of the switch tag) - converting the tag to the type of the case value truncates it (2.5 matches case 2) and carries over to the following cases"
+}
+
+// r2x18: found through the round-6 report on C01 (D10). _case converted the tag to the type of
+// each case value: switch f { case 2: ...; case 2.5: ... } with f == 2.5 took the first case, and
+// a float32 tag never matched the constant it had been initialised with.
+func (x *c02ctx) r2x18() {
+	ic, r := x.ic, x.r
+	info := ic.Info
+	fi := ic.fn(r, "_case")
+	if fi == nil {
+		return
+	}
+	// generators of the switch tag: locals assigned from genValue(<expr through n.anc.anc>)
+	tagGen := map[types.Object]bool{}
+	ast.Inspect(fi.Decl.Body, func(q ast.Node) bool {
+		as, ok := q.(*ast.AssignStmt)
+		if !ok || len(as.Lhs) != 1 || len(as.Rhs) != 1 {
+			return true
+		}
+		c, ok := unparen(as.Rhs[0]).(*ast.CallExpr)
+		if !ok || !isCallTo(info, c, "interp.genValue") || len(c.Args) != 1 {
+			return true
+		}
+		if strings.Contains(types.ExprString(c.Args[0]), "anc.anc.child") {
+			if id := identOf(as.Lhs[0]); id != nil {
+				tagGen[info.ObjectOf(id)] = true
+			}
+		}
+		return true
+	})
+	n := 0
+	for k, fl := range x.closuresOf(fi) {
+		tags := map[types.Object]*ast.AssignStmt{}
+		ast.Inspect(fl.Body, func(q ast.Node) bool {
+			as, ok := q.(*ast.AssignStmt)
+			if !ok || as.Tok != token.DEFINE || len(as.Lhs) != 1 || len(as.Rhs) != 1 {
+				return true
+			}
+			if c, ok := unparen(as.Rhs[0]).(*ast.CallExpr); ok {
+				if g := identOf(c.Fun); g != nil && tagGen[info.ObjectOf(g)] {
+					if id := identOf(as.Lhs[0]); id != nil {
+						tags[info.ObjectOf(id)] = as
+					}
+				}
+			}
+			return true
+		})
+		if len(tags) == 0 {
+			continue
+		}
+		// only the closures comparing values (a loop over the case values with ==)
+		compares := false
+		ast.Inspect(fl.Body, func(q ast.Node) bool {
+			if be, ok := q.(*ast.BinaryExpr); ok && be.Op == token.EQL && len(callsIn(info, be, true, "reflect.Value.Interface")) == 2 {
+				compares = true
+			}
+			return true
+		})
+		if !compares {
+			continue
+		}
+		n++
+		var bad []string
+		ast.Inspect(fl.Body, func(q ast.Node) bool {
+			switch y := q.(type) {
+			case *ast.AssignStmt:
+				for _, l := range y.Lhs {
+					if id := identOf(l); id != nil && tags[info.ObjectOf(id)] != nil && tags[info.ObjectOf(id)] != y {
+						bad = append(bad, "the tag "+id.Name+" is reassigned at "+ic.pos(y.Pos()))
+					}
+				}
+			case *ast.CallExpr:
+				if isCallTo(info, y, "reflect.Value.Convert") {
+					if id := identOf(unparen(y.Fun).(*ast.SelectorExpr).X); id != nil && tags[info.ObjectOf(id)] != nil {
+						bad = append(bad, "the tag "+id.Name+" is converted at "+ic.pos(y.Pos()))
+					}
+				}
+			}
+			return true
+		})
+		r.Check(len(bad) == 0, "R02.18", fmt.Sprintf("_case/closure#%d/tag-never-converted", k+1), ic.pos(fl.Pos()), "the case values are brought to the type of the tag, not the reverse",
+			"the case generator changes the tag while comparing ("+strings.Join(dedupStr(bad), "; ")+"): the tag is truncated to the type of a case value and stays so for the following cases - f := 2.5; switch f { case 2: ...; case 2.5: ... } takes case 2, and var g float32 = 0.1; switch g { case 0.1: } takes default")
+	}
+	if n == 0 {
+		r.Errorf("R02.18: no closure of _case comparing the tag with the case values found")
+	}
+}
